@@ -6,8 +6,8 @@
        HT (n+1) = hugr (op (HT n)) md                ST (n+1) = serial (sop (ST n)) md
    with encT / decT the total versions of to_serial / from_serial (an exception is the empty document / HUGR; it is
    never produced for a payload satisfying okT), typeT = body.root_op().inner_signature(), and
-   okT = the premise of the composed theorem one level down, as a boolean: the guard, C05's op_ok and tag_ok on
-   every node, and a root with an inner signature.  No proofs in this file. *)
+   okT = the premise of the composed theorem one level down, as a boolean: the guard, C05's op_ok on every node,
+   and a root with an inner signature.  No proofs in this file. *)
 From Coq Require Import NArith List Bool Arith.
 Import ListNotations.
 From HV Require Import lib.Harness model.Types model.SerialTypes model.Codec model.CodecVals model.CodecOps
@@ -75,7 +75,7 @@ Section Tower.
   Definition guardT (n : nat) (h : hugr (op (HT n)) md) : bool := guard_b (vportsT n) (sportsT n) (has_orderT n) h.
 
   (* every live node carries an operation inside C05's domain (op_ok: the encoding returns and the object is one its
-     constructor can have built; tag_ok: a Tag names one of its variants), given the predicate on payloads *)
+     constructor can have built), given the predicate on payloads *)
   Definition ops_ok_b {H} (h_ok : H -> bool) (h : hugr (op H) md) : bool :=
     forallb (fun on => match on with Some nd => cop_ok_b H h_ok (n_op nd) | None => true end) (h_nodes h).
   Definition root_ok_b {H} (h : hugr (op H) md) : bool :=
